@@ -190,6 +190,7 @@ Proof.
   - destruct A as [_ Aw]. pose proof (nulfree_replace_sub l (lit_of l rm) (lit_of l wm) max from F (lit_nulfree l wm F Aw)) as X.
     destruct (l0_replace_sub l (lit_of l rm) (lit_of l wm) max from). inversion H; subst. cbn [fst] in X. split; [exact X|exact I].
   - destruct (list_eqb (cstr bytes) bytes); inversion H; subst; (split; [|exact I]); [exact F|apply cstr_is_nulfree].
+  - unfold read_cstr_w in H. destruct (list_eqb _ _); inversion H; subst; (split; [|exact I]); [exact F|apply cstr_is_nulfree].
   - pose proof (nulfree_multi_fuel (S (length l)) pairs l max A F) as X. unfold l0_replace_multi in H.
     destruct (multi_fuel (S (length l)) pairs l max). inversion H; subst. cbn [fst] in X. split; [exact X|exact I].
   - inversion H; subst; clear H; cbn [out0_nulfree]. split; [|exact I]. destruct (i <? lenN l); [|exact F].
